@@ -621,7 +621,7 @@ func (w *worker) run(bi int, beh []map[string]any, res *vh.Result) {
 			// the dissolver job runs >= 1 s after it was submitted; it calls Broker.Unsubscribe only when the channel is empty
 			if !vh.Bool(st["brokerSub"]) && vh.Bool(beh[si-1]["brokerSub"]) {
 				r.expectAt("JOB", "BrokerUnsubscribe")
-				if got := r.await("JOB", 3*time.Second); got != "BrokerUnsubscribe" {
+				if got := r.await("JOB", 8*time.Second); got != "BrokerUnsubscribe" {
 					drift(fmt.Sprintf("dissolver job: got %q, model expects Broker.Unsubscribe", got))
 					break
 				}
